@@ -200,8 +200,11 @@ impl ParamSpec {
     }
     pub fn bounds(&self, i: usize) -> (f64, f64) {
         let i64_ = i as u64;
+        // "inverted": as "mixed", but about half of the parameters declare a lower bound above
+        // their upper bound (what a real cell smaller than its fixed minimum length declares)
+        let inverted = self.range_mode == "inverted" && h3(self.salt, i64_, 12) & 1 == 1;
         let mode: &str = match self.range_mode.as_str() {
-            "mixed" => ["unit", "sym", "wide"][(h3(self.salt, i64_, 1) % 3) as usize],
+            "mixed" | "inverted" => ["unit", "sym", "wide"][(h3(self.salt, i64_, 1) % 3) as usize],
             m => m,
         };
         let (lo, hi) = match mode {
@@ -215,6 +218,8 @@ impl ParamSpec {
         };
         if self.zero_width > 0.0 && u01(h3(self.salt, i64_, 4)) < self.zero_width {
             (lo, lo)
+        } else if inverted {
+            (hi, lo)
         } else {
             (lo, hi)
         }
@@ -333,6 +338,9 @@ impl Landscape {
         };
         for i in 0..n {
             let (lo, hi) = ps.bounds(i);
+            // (the landscape is a function of the numbers; which way round a range is declared
+            // only matters to the basis handles)
+            let (lo, hi) = if lo <= hi { (lo, hi) } else { (hi, lo) };
             let w = hi - lo;
             let s = ps.start(i);
             l.lo.push(lo);
